@@ -67,7 +67,9 @@ def main():
             if not prop:
                 continue
             t = time.time()
-            p = subprocess.run([os.path.join(VERIF, "bin/check"), prop, "--no-evidence", "--tier", "quick"],
+            tier = os.environ.get("SEEDED_TIER", "quick")  # thorough: for changes only that tier reaches
+            extra = ["--wall", "120"] if tier == "thorough" else []
+            p = subprocess.run([os.path.join(VERIF, "bin/check"), prop, "--no-evidence", "--tier", tier] + extra,
                                env=dict(os.environ, VERIF_REPO=wt), capture_output=True, text=True)
             rule = [l for l in p.stdout.splitlines() if l.startswith("violated rule")]
             det = [l for l in p.stdout.splitlines() if l.startswith("  {")]
